@@ -84,7 +84,7 @@ def scalar_eq_structure(f):
     return res
 
 
-def run(ck):
+def _run_own(ck):
     facts = ck.facts
     ck.decided('D1 per-gate table of Circuit::to_tensor: every unitary kind is a diagonal phase conjugated by Hadamards on exactly the reference positions (or H / swap), only kinds that carry a phase read the gate\'s phase, unsupported kinds fail loudly, gates are applied in reverse order over all gates',
                'D2 decision structure of scalar_eq / scalar_compare / compare')
@@ -159,3 +159,8 @@ def run(ck):
     fx = fixture()
     t2 = gatesem.tensor_table(fx, 'tensor::to_tensor')
     ck.control('R-TABLE-tensor flags a NOT arm that is not a conjugation', t2 is not None and t2[0].get('NOT') != expected_tensor('NOT'))
+
+
+def run(ck, **kw):
+    _run_own(ck)
+    ck.include('C07', 'tensor entries and scalar comparisons are computed in Scalar4 arithmetic (scalar.rs is anchored here too)')
